@@ -27,6 +27,13 @@ SITES += [
     _state("statePotential", "abtem/potentials/iam.py", "Potential"),
     _state("stateBaseField", "abtem/potentials/iam.py", "BaseField"),
 ]
+# what the cached computations read besides their arguments (must be disjoint from the mutable state above)
+SITES += [
+    dict(gen="IntegralsCache", name="readsScatteringFactor", file="abtem/integrals.py", cls="ScatteringFactorProjectionIntegrals",
+         methods=["_calculate_scattering_factor"], emitter="py2lean_state:emit_reads", modes=["rat"]),
+    dict(gen="IntegralsCache", name="readsQuadrature", file="abtem/integrals.py", cls="QuadratureProjectionIntegrals",
+         methods=["_calculate_integral_table"], emitter="py2lean_state:emit_reads", modes=["rat"]),
+]
 FINGERPRINTS = {
     "ScatteringFactorProjectionIntegrals.get_scattering_factor": ("abtem/integrals.py", "ScatteringFactorProjectionIntegrals.get_scattering_factor"),
     "ScatteringFactorProjectionIntegrals._calculate_scattering_factor": ("abtem/integrals.py", "ScatteringFactorProjectionIntegrals._calculate_scattering_factor"),
